@@ -32,6 +32,12 @@ type Builder struct {
 	Class    Class
 	MaxDepth int
 	Variants map[string][]reflect.Type // interface name → implementing types
+	// TimeFormat: the one time format of the document ("date-time" default, "date", "time"): values are
+	// generated at that format's resolution.
+	TimeFormat string
+	// Hook, if set, may fill a struct field itself (return true).
+	Hook func(t *rapid.T, parent reflect.Type, f reflect.StructField, v reflect.Value) bool
+	// NoNilInterface / response building: never leave interfaces nil.
 	// Stats
 	Unsupported map[string]int
 }
@@ -197,9 +203,16 @@ func (b *Builder) fill(t *rapid.T, v reflect.Value, depth int) {
 			sec = rapid.Int64Range(0, 2000000000).Draw(t, "unix-recent")
 		}
 		tm := time.Unix(sec, 0).UTC()
-		if rapid.IntRange(0, 2).Draw(t, "zone") == 0 {
-			off := rapid.IntRange(-14*60, 14*60).Draw(t, "offmin")
-			tm = tm.In(time.FixedZone("", off*60))
+		switch b.TimeFormat {
+		case "date":
+			tm = time.Date(tm.Year(), tm.Month(), tm.Day(), 0, 0, 0, 0, time.UTC)
+		case "time":
+			tm = time.Date(0, 1, 1, tm.Hour(), tm.Minute(), tm.Second(), 0, time.UTC)
+		default:
+			if rapid.IntRange(0, 2).Draw(t, "zone") == 0 {
+				off := rapid.IntRange(-14*60, 14*60).Draw(t, "offmin")
+				tm = tm.In(time.FixedZone("", off*60))
+			}
 		}
 		v.Set(reflect.ValueOf(tm))
 		return
@@ -303,6 +316,9 @@ func (b *Builder) fill(t *rapid.T, v reflect.Value, depth int) {
 	case reflect.Struct:
 		for i := 0; i < rt.NumField(); i++ {
 			if !rt.Field(i).IsExported() {
+				continue
+			}
+			if b.Hook != nil && b.Hook(t, rt, rt.Field(i), v.Field(i)) {
 				continue
 			}
 			b.fill(t, v.Field(i), depth+1)
